@@ -74,6 +74,51 @@ class BoundCheck:
             return self.safe_place(ol, depth)
         return self.safe_local(ol[0], depth)
 
+    def char_is_at(self, idx_op, char_op):
+        from origins import backward_slice
+        from mirutil import copy_root
+        fn, P = self.fn, self.P
+        ia, ca = op_local(idx_op), op_local(char_op)
+        if not ia or not ca:
+            return False
+        iroot = copy_root(fn, ia[0])
+        # (i, c) read from the same (usize, char) tuple
+        def tuple_src(l, field):
+            for kind, bi, si, d in defs_of(fn, l):
+                if kind == "a" and d["k"] in ("use", "ref"):
+                    pl = op_local(d["o"]) if d["k"] == "use" else (d["p"][0], d["p"][1])
+                    if pl and any(p[0] == "f" and p[1] == field for p in pl[1]) and "(usize, char)" in P.local_ty(fn, pl[0]):
+                        return pl[0]
+            return None
+        if ia[1] or ca[1]:
+            bi_, bc_ = ia, ca
+            if any(p[0] == "f" and p[1] == 0 for p in bi_[1]) and any(p[0] == "f" and p[1] == 1 for p in bc_[1]) and bi_[0] == bc_[0]:
+                return True
+        ti = tuple_src(ia[0], 0) if len(defs_of(fn, ia[0])) == 1 else None
+        croot = ca[0]
+        for _ in range(4):
+            ds = defs_of(fn, croot)
+            if len(ds) == 1 and ds[0][0] == "a" and ds[0][3]["k"] == "ref" and not ds[0][3]["p"][1]:
+                croot = ds[0][3]["p"][0]
+            else:
+                break
+        tc = tuple_src(croot, 1) if len(defs_of(fn, croot)) == 1 else None
+        if ti is not None and ti == tc:
+            return True
+        # c (or the Option<char>) comes from s[i..].chars().next()
+        locs, calls = backward_slice(fn, ca[0])
+        for c in calls:
+            f = c.get("f")
+            if not f or f["id"].rsplit("::", 1)[1] != "index" or len(c["args"]) < 2:
+                continue
+            rl = op_local(c["args"][1])
+            for kind, bi, si, d in (defs_of(fn, rl[0]) if rl else []):
+                if kind == "a" and d["k"] == "agg" and d.get("ops"):
+                    o0 = op_local(d["ops"][0])
+                    if o0 and (copy_root(fn, o0[0]) == iroot or o0[0] == ia[0]):
+                        return True
+        return False
+
     def safe_place(self, ol, depth):
         base, proj = ol
         ty = self.P.local_ty(self.fn, base)
@@ -168,13 +213,17 @@ class BoundCheck:
                 lb = op_local(b)
                 if lb:
                     dsb = defs_of(fn, lb[0])
-                    if len(dsb) == 1 and dsb[0][0] == "c" and dsb[0][3].get("f") and dsb[0][3]["f"]["id"].endswith("::len_utf8"):
-                        return True
+                    is_len = len(dsb) == 1 and dsb[0][0] == "c" and dsb[0][3].get("f") and dsb[0][3]["f"]["id"].endswith("::len_utf8")
                     # map_or(0, char::len_utf8) etc.
-                    if len(dsb) == 1 and dsb[0][0] == "c" and dsb[0][3].get("f") and dsb[0][3]["f"]["id"].rsplit("::", 1)[1] in ("map_or", "unwrap_or", "map"):
-                        for a2 in dsb[0][3]["args"]:
-                            if a2[0] == "k" and "fn" in a2[1] and a2[1]["fn"]["id"].endswith("::len_utf8"):
-                                return True
+                    is_map = (len(dsb) == 1 and dsb[0][0] == "c" and dsb[0][3].get("f") and dsb[0][3]["f"]["id"].rsplit("::", 1)[1] in ("map_or", "unwrap_or", "map")
+                              and any(a2[0] == "k" and "fn" in a2[1] and a2[1]["fn"]["id"].endswith("::len_utf8") for a2 in dsb[0][3]["args"]))
+                    if is_len or is_map:
+                        # `i + c.len_utf8()` is the next boundary only if c is the character that starts at i
+                        if self.char_is_at(a, dsb[0][3]["args"][0]):
+                            return True
+                        self.why.append("`i + c.len_utf8()` where c is not provably the character that starts at i (it must come from `s[i..].chars().next()` "
+                                        "or be the char of the same char_indices item as i)")
+                        return False
                 if b[0] == "k" and b[1].get("val") == 1:
                     if ascii_guarded(P, fn, bi):
                         return True
